@@ -4,6 +4,14 @@ write /verif/seeded/RESULTS.json and /verif/mutants/RESULTS.json. usage: run_all
 import glob, json, os, re, shutil, subprocess, sys, tempfile
 V = os.path.dirname(os.path.dirname(os.path.abspath(__file__)))
 what = sys.argv[1] if len(sys.argv) > 1 else "all"
+only = set(sys.argv[2:])  # optional names: re-run just these and merge them into the existing RESULTS.json
+
+
+def load(path):
+    try:
+        return json.load(open(path)) if only else {}
+    except (OSError, ValueError):
+        return {}
 
 def run(patch, props, baseline):
     tmp = tempfile.mkdtemp(prefix="bz-det-")
@@ -29,9 +37,11 @@ def run(patch, props, baseline):
     return out
 
 if what in ("seeds", "all"):
-    res = {}
+    res = load(os.path.join(V, "seeded", "RESULTS.json"))
     for d in sorted(glob.glob(os.path.join(V, "seeded", "C*-*"))):
         name = os.path.basename(d)
+        if only and name not in only:
+            continue
         meta = json.load(open(os.path.join(d, "meta.json")))
         props = sorted(set([meta.get("property", name.split("-")[0])] + list(meta.get("checks", {}).keys())))
         r = run(os.path.join(d, "patch.diff"), props, True)
@@ -39,9 +49,11 @@ if what in ("seeds", "all"):
         print(name, {k: v["detected"] for k, v in r.get("checks", {}).items()}, "baseline", r.get("baseline_77_pass"), flush=True)
     json.dump(res, open(os.path.join(V, "seeded", "RESULTS.json"), "w"), indent=1)
 if what in ("mutants", "all"):
-    res = {}
+    res = load(os.path.join(V, "mutants", "RESULTS.json"))
     for f in sorted(glob.glob(os.path.join(V, "mutants", "*.diff"))):
         name = os.path.basename(f)[:-5]
+        if only and name not in only:
+            continue
         m = re.search(r"c(\d\d)", name)
         props = ["C" + m.group(1)]
         if name.startswith(("c15_window", "c01_")):
